@@ -355,6 +355,39 @@ pub fn execute(s: &ForScn, ctx: &mut Ctx) {
         ctx.stats.absorb_world(&world.borrow());
     }
 
+    // ---- C03 with the index, after a seek that failed: the source's seek moves and then reports an
+    // error once (a layered or remote stream); whatever the reader then yields is still the file's
+    // records, from the first or from the one sought
+    if layout_plain && n >= 2 {
+        for target in [n - 1, 1] {
+            // a fresh reader each time: nothing has been consumed when the seek fails
+            let world = World::with_data(Plan::default(), shp.clone(), shx.clone(), vec![]);
+            if let Open::Ok(mut r) = open(&world, true, StackCfg::Direct) {
+                {
+                    let mut wb = world.borrow_mut();
+                    let at = wb.devices[SHP].ops;
+                    wb.plan.faults.push(Fault { dev: SHP as u8, at, kind: FaultKind::ErrMoved(0), persistent: false });
+                }
+                let failed = matches!(guarded(|| r.seek(target).is_err()), Ok(true));
+                match iter_generic(&mut r, cap) {
+                    Ok((items, capped)) => {
+                        let fits = |from: usize| items.len() == n - from && items.iter().zip(s.recs[from..].iter()).all(|(it, rec)| matches!(it, Ok(g) if diff_foreign(&expected_of(rec), rec.m_present, g).is_none()));
+                        if capped || !(fits(0) || fits(target)) {
+                            ctx.fail("C03", "same-geometry", format!("after-failed-seek:{}", site), format!("seek({}) {} (its source seek moved, then reported an error); the iteration that follows yielded {:?} over {} records", target, if failed { "failed" } else { "did not fail" }, items.iter().map(item_short).collect::<Vec<_>>(), n));
+                            break;
+                        }
+                    }
+                    Err(p) => {
+                        ctx.fail("C03", "panic", p.site(), format!("iteration after a failed seek: {}", p.text()));
+                        break;
+                    }
+                }
+                ctx.stats.reach("foreign-iteration-after-failed-seek");
+            }
+            ctx.stats.absorb_world(&world.borrow());
+        }
+    }
+
     // ---- C14: with the index, located by the index alone
     let world = mk();
     let lsite = if permuted { "permuted" } else if !layout_plain { "filler" } else { "plain" };
@@ -801,7 +834,7 @@ pub fn large_unit(unit: u64, ctx: &mut Ctx, ctl: &mut UnitCtl) {
     match unit % 3 {
         0 => {
             // many records (points and null records), in index order and reversed
-            for n in [1025usize, 4097, 5000] {
+            for n in [1025usize, 4096, 4097, 5000, 8192, 12_288] {
                 let recs: Vec<ForRec> = (0..n)
                     .map(|i| {
                         let g = if i % 97 == 13 { Geom::null() } else { Geom { ty: 11, parts: vec![Part { kind: -1, pts: vec![[(i as f64).to_bits(), 2f64.to_bits(), 3f64.to_bits(), 4f64.to_bits()]] }], bbox: None } };
